@@ -39,6 +39,7 @@ const (
 	kStart kind = iota
 	kCons
 	kPartial
+	kEvent // an ExecuteDuty event message handed to ProcessMessage (what the duty scheduler queues)
 )
 
 type evDef struct {
@@ -140,6 +141,17 @@ func buildRole(role spectypes.BeaconRole) *roleCfg {
 	e = part("post(s1,op2)->otherRoleEnvelope", idOther, runh.PartialSigMsg(2, spectypes.PostConsensusPartialSig, s1, postValid.Roots))
 	e.otherRol = true
 	add(e)
+
+	// ExecuteDuty events as the scheduler queues them: for this validator, and addressed to
+	// another validator (message id and duty name the other key)
+	add(evDef{name: "execDutyEvent(s2)", kind: kEvent, slot: s2, wire: runh.WireExecuteDuty(id, runh.Duty(role, s2))})
+	for _, sl := range []phase0.Slot{s1, s2} {
+		d := *runh.Duty(role, sl)
+		copy(d.PubKey[:], testingutils.TestingWrongValidatorPubKey[:])
+		e := evDef{name: fmt.Sprintf("execDutyEvent(s%d)->otherValidator", sl-s1+1), kind: kEvent, slot: sl, wire: runh.WireExecuteDuty(wrongVal, &d)}
+		e.otherVal = true
+		add(e)
+	}
 
 	// pre-consensus partial signatures
 	if pre := runh.PreConsensusRoots(role, s1); pre != nil {
@@ -254,6 +266,11 @@ func (s *sys) Apply(st runh.Step) (string, []runh.Viol, int) {
 	switch e.kind {
 	case kStart:
 		class = "start"
+	case kEvent:
+		class = "start-event"
+		if e.otherVal {
+			class = "start-event-other-validator"
+		}
 	case kPartial:
 		class = "partial"
 		if e.otherRol {
@@ -311,7 +328,7 @@ func (s *sys) Apply(st runh.Step) (string, []runh.Viol, int) {
 			bad("signature with a foreign key", "SignBeaconObject asked for a key that is not this operator's share", c.PK, myPK)
 		}
 		switch {
-		case e.kind == kStart:
+		case e.kind == kStart || (e.kind == kEvent && !e.otherVal):
 			exp := runh.PreConsensusRoots(s.c.role, e.slot)
 			ok := err == nil && exp != nil && c.DomainType == exp.DomainType && !preSeen[c.Root]
 			if ok {
